@@ -95,3 +95,8 @@ impl Extractor {
         Ok(())
     }
 }
+
+// Verification hooks (harnesses live in /verif/hooks); inert unless built with --cfg rdest_verif or by cargo-kani
+#[cfg(any(kani, rdest_verif))]
+#[path = "/verif/hooks/extractor.rs"]
+mod verif_hooks;
